@@ -619,6 +619,13 @@ example : shrinkTo (State.ofBytes (encode ['a', 'é']) 10) 5 true = .ok () { buf
 example : extendChars .fixed (State.ofBytes (encode ['a']) 4) ['b', '€', 'c'] =
     .err { buf := [0x61, 0x62, 0, 0], len := 2 } := by decide
 
+/-- `clone()` of a `BumpString`: the clone holds the same characters (valid UTF-8), in a NEW
+    allocation of exactly `len` bytes (capacity = len, whatever the original's capacity) -/
+theorem clone_refines (s : State) (cs : List Char) (h : Holds s cs) :
+    Holds (cloneStr s) cs ∧ (cloneStr s).cap = s.len ∧ (cloneStr s).len = s.len := cloneStr_spec s cs h
+
+example : cloneStr (State.ofBytes (encode ['a', 'é']) 10) = { buf := [0x61, 0xC3, 0xA9], len := 3 } := by decide
+
 /-! ## checked constructors -/
 
 /-- `from_utf8` accepts exactly the valid byte strings, and the accepted string IS the input, unchanged -/
@@ -723,6 +730,15 @@ theorem run_valid (f : Bool) (s : State) (ops : List (Alloc × Op)) (h : WF s) :
     obtain ⟨s1, h1, hw⟩ := step_valid al f s op h
     simp only [run, h1]
     exact ih s1 hw
+
+/-- clone and original are INDEPENDENT: whatever single operation (any arguments, any outcome) is
+    applied to the clone, the original still holds its characters — and vice versa — and the string
+    operated on is well formed afterwards.  (In the byte model strings are values, so independence is
+    structural; on the implementation it is what the `CLOBBERED` / other-live-string oracles test.) -/
+theorem clone_independent (al : Alloc) (f : Bool) (s : State) (cs : List Char) (op : Op) (h : Holds s cs) :
+    (∃ c', step al f (cloneStr s) op = some c' ∧ WF c') ∧ Holds s cs ∧
+    (∃ s', step al f s op = some s' ∧ WF s') ∧ Holds (cloneStr s) cs :=
+  ⟨step_valid al f (cloneStr s) op (cloneStr_spec s cs h).1.wf, h, step_valid al f s op h.wf, (cloneStr_spec s cs h).1⟩
 
 /-- every string a constructor produces from text is well formed -/
 theorem ofBytes_wf (cs : List Char) (cap : Nat) : WF (State.ofBytes (encode cs) cap) := (holds_ofBytes cs cap).wf
